@@ -8,6 +8,7 @@ identical interval, same-kind inputs row-aligned, calls adjacent) and per run (e
 input row delivered exactly once, in order; nothing silently dropped).
 """
 import itertools
+import os
 
 import numpy as np
 
@@ -266,8 +267,11 @@ def run_mp_join(case):
     cfg = dict(mpj_rows_a=tuple(map(tuple, case["rows_a"])), mpj_rows_b=tuple(map(tuple, case["rows_b"])),
                mpj_cuts_a=tuple(case["cuts_a"]), mpj_cuts_b=tuple(case["cuts_b"]))
     outcomes = {}
+    calls = {}
     for mode in ("single_thread", "threaded", "process_pool_inlined"):
         d = hrun.mktemp("c08mp-")
+        log = d.rstrip("/") + ".calls"
+        cfg["mpj_log"] = log
         try:
             kw = dict(processors=["single_thread"]) if mode == "single_thread" else dict(processors=["threaded_mailbox"], allow_lazy=False)
             if mode == "process_pool_inlined":
@@ -284,7 +288,19 @@ def run_mp_join(case):
                     outcomes[mode] = ("error", type(e).__name__ + ": " + str(e)[:120])
         finally:
             hrun.rm(d)
+            if os.path.exists(log):
+                with open(log) as f:
+                    calls[mode] = sorted(tuple(map(int, ln.split()[1:3])) for ln in f if ln.strip())
+                os.remove(log)
     viol = []
+    for mode, cs in calls.items():
+        if outcomes[mode][0] != "rows":
+            continue
+        dup = sorted({c_ for c_ in cs if cs.count(c_) > 1 and c_[1] > c_[0]})  # zero-duration chunks may repeat
+        if dup or any(a[1] != b[0] for a, b in zip(cs[:-1], cs[1:])):
+            viol.append({"sig": {"kind": "calls-not-exactly-once", "mode": mode, "leftover": case["leftover"]},
+                         "what": f"calls-not-exactly-once: the two-output plugin behind the join was called for the intervals {cs} "
+                                 f"in mode {mode} (every interval once, adjacent intervals expected)"[:600], "case": case})
     ref = outcomes["single_thread"]
     for mode in ("threaded", "process_pool_inlined"):
         o = outcomes[mode]
